@@ -779,6 +779,15 @@ def tokenize(content: str, lenient: bool = False) -> tuple[list[Token], list[Any
         if fence_span_idx < len(fence_spans) and pos == fence_spans[fence_span_idx][0]:
             span_start, span_end, marker, tag = fence_spans[fence_span_idx]
 
+            # The span starts at the beginning of the fence line, so that line's indentation is
+            # inside the span. Report it like any other line's indentation: without an INDENT
+            # token the parser sees an indented zone at column 0 and ends the enclosing block.
+            fence_indent = 0
+            while content[span_start + fence_indent] == " ":
+                fence_indent += 1
+            if fence_indent > 0:
+                tokens.append(Token(TokenType.INDENT, fence_indent, line, column))
+
             # Emit FENCE_OPEN token
             tokens.append(
                 Token(
